@@ -53,48 +53,41 @@ example : stringToFilename (lit "con") (lit ".yml") = lit "con^0.yml" := by deci
 example : stringToFilename (lit ".notdef") (lit ".yml") = lit "%2Enotdef.yml" := by decide
 example : (lit ".glyf").length = (lit ".gvar").length := by decide
 
-/-! ## FE ids (`fontir::paths::Paths::target_file`) -/
+/-! ## file names stay inside their directory -/
+
+/-- `string_to_filename` never produces a path separator (the suffix aside), so glyph, anchor and
+    kerning files land in their directory whatever the glyph or the axis is called. -/
+theorem stf_no_path_separator (n suffix : List Nat) (hs : 0x2F ∉ suffix) :
+    0x2F ∉ stringToFilename n suffix :=
+  stf_no_slash n suffix hs
+
+/-! ## FE ids (`fontir::paths::Paths::target_file`, current code: after fix 75d720d)
+
+  The f64 `Display` printer is a parameter `pr` of the model; what is assumed of it
+  (`PrintInjective`: different values print differently — it prints the shortest text that parses back
+  to the same value; `PrintNoUnderscore`) is part of the trusted base and is checked by the driver on
+  every case of stream c14paths against the texts the real printer produced. -/
 
 /-- The property at full strength: distinct FE work ids are written to distinct files. -/
-def FullStatement : Prop := ∀ a b : FeId, feTarget a = feTarget b → a = b
+def FullStatement (pr : Rat → List Nat) : Prop :=
+  ∀ a b : FeId, a.printable → b.printable → feTarget pr a = feTarget pr b → a = b
 
-/-- It holds for every pair of ids except two kerning instances whose locations have the same axes
-    and agree on every coordinate after rounding to two decimals (`KernClash`); axis tags as
-    produced by `Tag::from_str` (printable ASCII). -/
-theorem fe_target_file_injective_partial (a b : FeId) (pa : a.printable) (pb : b.printable)
-    (hc : ¬ KernClash a b) (h : feTarget a = feTarget b) : a = b :=
-  fe_target_inj_partial a b pa pb hc h
+/-- It holds for the current code (axis tags as produced by `Tag::from_str`: printable ASCII). -/
+theorem fe_target_file_injective (pr : Rat → List Nat) (hi : PrintInjective pr) (hu : PrintNoUnderscore pr) :
+    FullStatement pr :=
+  fun a b pa pb h => fe_target_inj pr hi hu a b pa pb h
 
-/-- The excluded pairs are exactly the colliding ones. -/
-theorem kern_clash_collides (a b : FeId) (hc : KernClash a b) : feTarget a = feTarget b ∧ a ≠ b := by
-  obtain ⟨l1, l2, rfl, rfl, hne, hk⟩ := hc
-  refine ⟨kernFileName_of_key l1 l2 hk, ?_⟩
-  intro h
-  injection h with h
-  exact hne h
+/-- The kerning file is directly in the build directory whatever the axis tags are. -/
+theorem kern_file_flat (pr : Rat → List Nat) (l : Loc) : 0x2F ∉ kernFileName pr l :=
+  kernFileName_no_slash pr l
 
 def wght : Tag := ⟨0x77, 0x67, 0x68, 0x74⟩
 
-/-- Kerning masters at wght 699 and 700 on a 400–700 axis (normalised 299/300 and 1): both are
-    written to `kern_wght_1.00.yml`. -/
-theorem fe_target_file_counterexample : ¬ FullStatement := by
-  intro h
-  have h1 : feTarget (.kernInstance [(wght, (299 : Rat) / 300)]) = feTarget (.kernInstance [(wght, 1)]) := by
-    decide +kernel
-  have h2 := h _ _ h1
-  revert h2
-  decide +kernel
+/-- non-vacuity: a printer with both assumed properties exists -/
+example : ∃ pr : Rat → List Nat, PrintInjective pr ∧ PrintNoUnderscore pr :=
+  ⟨prWitness, prWitness_injective, prWitness_noUnderscore⟩
 
-example : feTarget (.kernInstance [(wght, (299 : Rat) / 300)]) = lit "kern_wght_1.00.yml" := by decide +kernel
-
-/-- non-vacuity of the partial theorem: two kerning instances that do not clash -/
-example : ¬ KernClash (.kernInstance [(wght, 0)]) (.kernInstance [(wght, 1)]) := by
-  rintro ⟨l1, l2, h1, h2, _, hk⟩
-  injection h1 with h1
-  injection h2 with h2
-  subst h1 h2
-  revert hk
-  decide +kernel
+example : feTarget prWitness (.kernInstance [(wght, 1)]) = lit "kern_wght_1%2F1.yml" := by decide +kernel
 
 example : (FeId.kernInstance [(wght, 0)]).printable := by
   intro e he
@@ -102,32 +95,36 @@ example : (FeId.kernInstance [(wght, 0)]).printable := by
   subst he
   decide
 
-/-! ## file names stay inside their directory -/
+/-! ## the kerning file as it was before the fix (record of defects F4 and "tag separator") -/
 
-/-- `string_to_filename` never produces a path separator (the suffix aside), so glyph and anchor
-    files land in `glyph_ir/`, `anchor_ir/`, `glyphs/` whatever the glyph is called. -/
-theorem stf_no_path_separator (n suffix : List Nat) (hs : 0x2F ∉ suffix) :
-    0x2F ∉ stringToFilename n suffix :=
-  stf_no_slash n suffix hs
+/-- Old naming, equal file names ⇔ same axes and same coordinates after rounding to two decimals. -/
+theorem kern_file_name_old_collides_iff (l1 l2 : Loc) (p1 : l1.printable) (p2 : l2.printable) :
+    kernFileNameOld l1 = kernFileNameOld l2 ↔ l1.key = l2.key :=
+  ⟨kernFileNameOld_key l1 l2 p1 p2, kernFileNameOld_of_key l1 l2⟩
 
-/-- The property for kerning instances: the file is directly in the build directory. -/
-def KernFileFlat : Prop := ∀ l : Loc, l.printable → 0x2F ∉ kernFileName l
+/-- Kerning masters at wght 699 and 700 on a 400–700 axis (normalised 299/300 and 1) were both
+    written to `kern_wght_1.00.yml`. -/
+theorem kern_file_name_old_counterexample :
+    kernFileNameOld [(wght, (299 : Rat) / 300)] = kernFileNameOld [(wght, 1)] ∧
+    ([(wght, (299 : Rat) / 300)] : Loc) ≠ [(wght, 1)] := by
+  decide +kernel
 
-/-- It holds when no axis tag contains '/' … -/
-theorem kern_file_flat_partial (l : Loc) (p : l.printable) (hn : ∀ e ∈ l, e.1.noSlash) :
-    0x2F ∉ kernFileName l :=
-  kernFileName_no_slash l p hn
+example : kernFileNameOld [(wght, (299 : Rat) / 300)] = lit "kern_wght_1.00.yml" := by decide +kernel
 
-/-- … and fails otherwise: the tag is copied into the name unescaped, axis tag `a/b ` (legal in
-    OpenType and accepted by `Tag::from_str`) asks for a file inside a directory `kern_a` that nobody
-    creates; with `--emit-ir` the build then dies in `File::create`. -/
-theorem kern_file_flat_counterexample : ¬ KernFileFlat := by
+/-- Old naming stayed in the build directory only when no axis tag contained '/' … -/
+theorem kern_file_old_flat_partial (l : Loc) (p : l.printable) (hn : ∀ e ∈ l, e.1.noSlash) :
+    0x2F ∉ kernFileNameOld l :=
+  kernFileNameOld_no_slash l p hn
+
+/-- … axis tag `a/b ` asked for a file in a directory `kern_a` that nobody creates. -/
+theorem kern_file_old_flat_counterexample :
+    ¬ ∀ l : Loc, l.printable → 0x2F ∉ kernFileNameOld l := by
   intro h
   have := h [(⟨0x61, 0x2F, 0x62, 0x20⟩, 0)] (by intro e he; simp at he; subst he; decide)
   revert this
   decide +kernel
 
-example : kernFileName [(⟨0x61, 0x2F, 0x62, 0x20⟩, 0)] = lit "kern_a/b _0.00.yml" := by decide +kernel
+example : kernFileNameOld [(⟨0x61, 0x2F, 0x62, 0x20⟩, 0)] = lit "kern_a/b _0.00.yml" := by decide +kernel
 example : wght.noSlash := by unfold Tag.noSlash; decide
 
 /-! ## BE ids (`fontbe::paths::Paths::target_file`) -/
@@ -137,22 +134,21 @@ theorem be_target_file_injective (a b : BeId) (h : beTarget a = beTarget b) : a 
   be_target_inj a b h
 
 /-- FE and BE items share the build directory: no FE file is a BE file. -/
-theorem fe_be_target_files_disjoint (a : FeId) (b : BeId) : feTarget a ≠ beTarget b :=
-  fe_be_disjoint a b
+theorem fe_be_target_files_disjoint (pr : Rat → List Nat) (a : FeId) (b : BeId) : feTarget pr a ≠ beTarget b :=
+  fe_be_disjoint pr a b
 
 /-- All ids of one build together. -/
-theorem any_target_file_injective_partial (a b : AnyId)
-    (hp : ∀ x, a = .fe x ∨ b = .fe x → x.printable)
-    (hc : ∀ x y, a = .fe x → b = .fe y → ¬ KernClash x y)
-    (h : anyTarget a = anyTarget b) : a = b := by
+theorem any_target_file_injective (pr : Rat → List Nat) (hi : PrintInjective pr) (hu : PrintNoUnderscore pr)
+    (a b : AnyId) (hp : ∀ x, a = .fe x ∨ b = .fe x → x.printable)
+    (h : anyTarget pr a = anyTarget pr b) : a = b := by
   cases a with
   | fe x =>
     cases b with
-    | fe y => rw [fe_target_inj_partial x y (hp x (Or.inl rfl)) (hp y (Or.inr rfl)) (hc x y rfl rfl) h]
-    | be y => exact absurd h (fe_be_disjoint x y)
+    | fe y => rw [fe_target_inj pr hi hu x y (hp x (Or.inl rfl)) (hp y (Or.inr rfl)) h]
+    | be y => exact absurd h (fe_be_disjoint pr x y)
   | be x =>
     cases b with
-    | fe y => exact absurd h.symm (fe_be_disjoint y x)
+    | fe y => exact absurd h.symm (fe_be_disjoint pr y x)
     | be y => rw [be_target_inj x y h]
 
 /-! ## persistence -/
